@@ -71,7 +71,7 @@ class VUnit:
 
     def fn(self, file, name, impl=None, nth=0, ret=None, requires=(), ensures=(), loops=None, inserts=(),
            rules=(), subst=(), sig_subst=(), external_body=False, canary=True, rename=None, ret_type=None,
-           attrs='', body_override=None, decreases=None, opens_invariants=None, no_unwind=False, returns=None, post=(), opt_inserts=(), resubst=(), d5=None, sig_override=None, append=None, prepend=None, opt_subst=(), opt_rules=(), isolate_loops=False, hint_inserts=()):
+           attrs='', body_override=None, decreases=None, opens_invariants=None, no_unwind=False, returns=None, post=(), opt_inserts=(), resubst=(), d5=None, sig_override=None, append=None, prepend=None, opt_subst=(), opt_rules=(), isolate_loops=False, hint_inserts=(), inline=()):
         """extract `fn name` and splice the contract. `rules`: names of rsx.rule_* to apply to the body.
         `subst`: [(literal, replacement, rulename)] literal body substitutions (each must match, logged as a rule).
         `loops`: {ordinal: 'invariant ..., decreases ..'} ; `inserts`: [(anchor, before|after|replace, text)]"""
@@ -88,6 +88,11 @@ class VUnit:
             fired.append('D5-%s (for %s in %s)' % (d5, pat, itn))
         if sig_override:
             sig = sig_override
+        for cfile, cname in inline:
+            # rule I1: beta-reduce a call of a generic repository function applied to a closure literal
+            callee = rsx.find_fn(self.src(cfile), cname, None, cfile, 0)
+            body, n = rsx.inline_closure_call(body, callee)
+            fired.append('I1-inline %s::%s (closure called %d times)' % (cfile, cname, n))
         for r in rules:
             fnr = getattr(rsx, 'rule_' + r)
             body, n = fnr(body)
